@@ -18,6 +18,8 @@ BY_FUNC = {
     "terms.ArithmeticExpression.left_needs_parens": {"curr_op": "Arithmetic", "left_op": "any"},
     "terms.ArithmeticExpression.right_needs_parens": {"curr_op": "Arithmetic", "right_op": "any"},
     "terms.ComplexCriterion.needs_brackets": {"term": "Node"},
+    # the formatter of a constant wrapper receives the wrapped (plain, non-Node) user value
+    "terms.ValueWrapper.get_formatted_value": {"value": "value"},
     "terms.JSON._get_str_sql": {"value": "str", "quote_char": "str"},
     "terms.JSON._get_dict_sql": {"value": "data"},
     "terms.JSON._get_list_sql": {"value": "data"},
